@@ -230,12 +230,15 @@ def _sym_worker(pid, hname, tier, conn, quick_ms, roots=None):
             # deferred branch sides (taken on sample evidence only): "this side is infeasible" is an obligation
             for dsd in p.deferred:
                 cons = _constraints(p, dsd['snap']) + [dsd['bad']]
-                st, env, dt = solve.solve_inproc(cons, 300, None)
+                st, env, dt = solve.solve_inproc(cons, 300, want_vars(p))
                 rec = dict(path=pi, name='unexplored branch side is infeasible', kind='side', status=st, by='z3-5.1-inproc',
                            secs=round(dt, 3), prefix=[[bool(a), bool(b)] for a, b in dsd['prefix']])
+                if st == 'sat':
+                    rec['env'] = _envjson(fix_angles(env, angle_info(p)))
                 if st == 'unknown':
                     rec['smt2'] = solve.to_smt2(cons)
-                    rec['vars'] = []
+                    rec['vars'] = list(want_vars(p))
+                    rec['angles'] = angle_info(p)
                 result['records'].append(rec)
             # fidelity witness: a generic model of this path and the value of every observed output term under it
             if hh is not None and hh.outs and len(result['fidelity']) < 4 and outcome == 'ok':
@@ -248,7 +251,7 @@ def _sym_worker(pid, hname, tier, conn, quick_ms, roots=None):
                 cons = base + [o['bad']]
                 if o['kind'] == 'check':
                     tc = time.time()
-                    ok, info = algcert.try_certify(base, o['bad'])
+                    ok, info = algcert.try_certify(base, o['bad'], tag=('path', pi))
                     if ok:
                         result['records'].append(dict(path=pi, name=o['name'], kind=o['kind'], status='unsat',
                                                       by='z3-5.1 (algebraic certificate)', secs=round(time.time() - tc, 3)))
